@@ -43,7 +43,8 @@ def gen_bitstream(rng, caps, per_cap, exhaustive):
     cases = []
     for cap in caps:
         for _ in range(per_cap):
-            lines, widths, rem = ["new %d" % cap], [], cap
+            fill = rng.choice(["", " 255", " 165", " %d" % rng.randrange(256)])   # prior contents of the buffer
+            lines, widths, rem = ["new %d%s" % (cap, fill)], [], cap
             while rem > 0 and (len(widths) < 40):
                 w = rng.randint(1, min(32, rem))
                 if rng.random() < 0.3:
@@ -69,7 +70,7 @@ def gen_bitstream(rng, caps, per_cap, exhaustive):
                     if off + w > cap:
                         continue
                     for v in value_patterns(rng, w)[:5]:
-                        lines = ["new %d" % cap]
+                        lines = ["new %d%s" % (cap, " 255" if (off + w) % 2 else "")]
                         if off:
                             lines.append("w %d %d" % (off, (1 << off) - 1 if v % 2 == 0 else 0))
                         lines.append("w %d %d" % (w, v)); lines.append("rr")
